@@ -136,3 +136,10 @@ Theorem C14_no_timer_left_behind_by_a_finished_phase :
     viol_in 80 89 (model_mon r stored local es) = [].
 Proof. exact (fun r s l es => no_violation r s l es 80 89). Qed.
 Print Assumptions C14_no_timer_left_behind_by_a_finished_phase.
+
+From Ship Require Import ConnCheck ConnImpl.
+Theorem C14_conn_checker_accepts_every_model_run :
+  forall (r : role) (stored local : bytes) (es : list eventx),
+    check_C14conn (model_case r stored local es) = [].
+Proof. intros r s l es. pose proof (checkers_accept_model r s l es) as H. cbv zeta in H. tauto. Qed.
+Print Assumptions C14_conn_checker_accepts_every_model_run.
